@@ -256,11 +256,30 @@ Case genPath() {
     p = GEN::randomPath(3, 9, M);
     if (!p.empty()) { p.push_back(p[0]); if (G::coin()) p.push_back(p[0]); }
   }
+  bool comb = G::chance(1);
+  if (comb) {
+    // structured worst cases for the divide-and-conquer simplifiers: a comb of 20-120 teeth along a line whose heights
+    // grow, shrink or alternate (the farthest vertex then sits next to an end of the range again and again: deep,
+    // lopsided recursion over hundreds of vertices); epsilon is small against the teeth
+    p.clear();
+    int teeth = (int)G::range(20, 120), mode = (int)G::range(0, 3);
+    int64_t pitch = G::range(12, 40), hstep = G::range(3, 25);
+    bool alongY = G::coin();
+    auto put = [&](int64_t u, int64_t w) { p.push_back(alongY ? Point64(w, u) : Point64(u, w)); };
+    put(0, 0);
+    for (int k = 1; k <= teeth; ++k) {
+      int64_t h = mode == 0 ? hstep * k : mode == 1 ? hstep * (teeth + 1 - k) : mode == 2 ? hstep * (k % 2 ? k : teeth + 1 - k) : hstep * (1 + (k * 7) % 13);
+      put(pitch * k, h); put(pitch * k + pitch / 3, 0); put(pitch * k + 2 * pitch / 3, 0);
+    }
+    if (G::coin()) std::reverse(p.begin(), p.end());
+    ST.count("comb_path_60_to_360_points");
+  }
   c.p["path"] = {p};
   c.i["open"] = G::range(0, 1);
   double feat = (double)std::max<int64_t>(M, 1);
   int ek = (int)G::range(0, 3);
   c.d["eps"] = ek == 0 ? 0.0 : ek == 1 ? G::real(0, 2) : ek == 2 ? G::real(0, feat) : feat * 1000;
+  if (comb) { c.d["eps"] = G::real(0.5, 3.0); c.i["open"] = G::chance(80); }
   c.d["thr"] = G::chance(30) ? 0.0 : G::real(0, 4) * G::real(0, feat);
   c.i["dx"] = G::sym(int64_t(1) << 40); c.i["dy"] = G::sym(int64_t(1) << 40);
   c.d["rx"] = G::chance(15) ? G::real(-5, 0) : G::real(0.1, 5000);
